@@ -592,8 +592,13 @@ def orchestrate(args):
       'wall_s': round(time.time() - t0, 2),
       'violations': len(violations),
   }
-  os.makedirs(os.path.join(VERIF, 'evidence'), exist_ok=True)
-  evp = os.path.join(VERIF, 'evidence', '%s.json' % pid)
+  evdir = os.environ.get('VERIF_EVIDENCE_DIR') or os.path.join(
+      VERIF, 'evidence')
+  if os.environ.get('VERIF_REPO') and not os.environ.get('VERIF_EVIDENCE_DIR'):
+    # runs against a scratch copy (mutants) must not overwrite the evidence
+    evdir = os.path.join(VERIF, 'replays', '_mutant_evidence')
+  os.makedirs(evdir, exist_ok=True)
+  evp = os.path.join(evdir, '%s.json' % pid)
   with open(evp + '.tmp', 'w') as f:
     json.dump(_finite_json(ev), f, indent=1, allow_nan=False, default=str)
   os.replace(evp + '.tmp', evp)
